@@ -365,4 +365,114 @@ theorem writeLoop_inv (m : Mode) (e : Endian) (eh : Bool) (cies : List WCie) :
               · exact hmem
 
 
+theorem FdesBound.mono {m : Mode} {e : Endian} {eh : Bool} {cies : List WCie}
+    {offs offs' : List (Option Nat)} {all all' : List Entry}
+    (hall : ∀ x, x ∈ all → x ∈ all')
+    (hoffs : ∀ ci cieOff, offs.getD ci none = some cieOff →
+      offs'.getD ci none = some cieOff ∨ ∃ c cb, cies[ci]? = some c ∧ Entry.cie ci cieOff cb ∈ all' ∧
+        cieWrite m e eh c cieOff = .ok cb) :
+    ∀ es, FdesBound m e eh cies offs all es → FdesBound m e eh cies offs' all' es := by
+  intro es
+  induction es with
+  | nil => intro _; trivial
+  | cons x es ih =>
+    intro h
+    cases x with
+    | cie i o b => exact ih h
+    | fde ci off fb =>
+      obtain ⟨⟨c, f, cieOff, hc, hw, hle, hor⟩, hrest⟩ := h
+      refine ⟨⟨c, f, cieOff, hc, hw, hle, ?_⟩, ih hrest⟩
+      rcases hor with h1 | ⟨cb, hmem, hcw⟩
+      · rcases hoffs ci cieOff h1 with h2 | ⟨c', cb, hc', hmem, hcw⟩
+        · exact Or.inl h2
+        · rw [hc] at hc'; cases hc'
+          exact Or.inr ⟨cb, hmem, hcw⟩
+      · exact Or.inr ⟨cb, hall _ hmem, hcw⟩
+
+theorem writeLoop_bound (m : Mode) (e : Endian) (eh : Bool) (cies : List WCie) :
+    ∀ (fdes : List (Nat × WFde)) (offs : List (Option Nat)) (pos : Nat) (es : List Entry),
+      offs.length = cies.length → (∀ i o, offs.getD i none = some o → o ≤ pos) →
+      writeLoop m e eh cies fdes offs pos = .ok es → FdesBound m e eh cies offs es es := by
+  intro fdes
+  induction fdes with
+  | nil =>
+    intro offs pos es _ _ h
+    rw [writeLoop] at h
+    cases h
+    trivial
+  | cons kf rest ih =>
+    obtain ⟨ci, f⟩ := kf
+    intro offs pos es hlen hle h
+    rw [writeLoop] at h
+    cases hc : cies[ci]? with
+    | none => rw [hc] at h; cases h
+    | some c =>
+      rw [hc] at h
+      simp only at h
+      have hci : ci < offs.length := by
+        rw [hlen]
+        rcases Nat.lt_or_ge ci cies.length with hl | hl
+        · exact hl
+        · rw [List.getElem?_eq_none hl] at hc; cases hc
+      cases ho : offs.getD ci none with
+      | some o =>
+        rw [ho] at h
+        simp only at h
+        obtain ⟨fb, hfb, h⟩ := bind_ok_inv h
+        obtain ⟨es', hes, h⟩ := bind_ok_inv h
+        cases h
+        have ih' := ih offs _ es' hlen (fun i o' h' => Nat.le_trans (hle i o' h') (Nat.le_add_right _ _)) hes
+        refine ⟨⟨c, f, o, hc, hfb, hle ci o ho, Or.inl ho⟩, ?_⟩
+        exact FdesBound.mono (fun x hx => List.mem_cons_of_mem _ hx) (fun _ _ h' => Or.inl h') es' ih'
+      | none =>
+        rw [ho] at h
+        simp only at h
+        obtain ⟨cb, hcb, h⟩ := bind_ok_inv h
+        obtain ⟨fb, hfb, h⟩ := bind_ok_inv h
+        obtain ⟨es', hes, h⟩ := bind_ok_inv h
+        cases h
+        have ih' := ih (offs.set ci (some pos)) _ es' (by simpa using hlen) (by
+          intro i o' h'
+          by_cases hi : i = ci
+          · subst hi
+            rw [getD_set_self offs i _ hci] at h'
+            cases h'
+            omega
+          · rw [getD_set_ne offs ci i _ hi] at h'
+            have := hle i o' h'
+            omega) hes
+        refine ⟨⟨c, f, pos, hc, hfb, Nat.le_add_right _ _, Or.inr ⟨cb, by simp, hcb⟩⟩, ?_⟩
+        refine FdesBound.mono (fun x hx => List.mem_cons_of_mem _ (List.mem_cons_of_mem _ hx)) ?_ es' ih'
+        intro i o' h'
+        by_cases hi : i = ci
+        · subst hi
+          rw [getD_set_self offs i _ hci] at h'
+          cases h'
+          exact Or.inr ⟨c, cb, hc, by simp, hcb⟩
+        · rw [getD_set_ne offs ci i _ hi] at h'
+          exact Or.inl h'
+
+
+theorem FdesBound.mem {m : Mode} {e : Endian} {eh : Bool} {cies : List WCie} {offs : List (Option Nat)}
+    {all : List Entry} : ∀ es, FdesBound m e eh cies offs all es →
+    ∀ ci off fb, Entry.fde ci off fb ∈ es →
+      ∃ c f cieOff, cies[ci]? = some c ∧ fdeWrite m e eh off cieOff c f = .ok fb ∧ cieOff ≤ off ∧
+        (offs.getD ci none = some cieOff ∨
+          ∃ cb, Entry.cie ci cieOff cb ∈ all ∧ cieWrite m e eh c cieOff = .ok cb) := by
+  intro es
+  induction es with
+  | nil => intro _ ci off fb h; cases h
+  | cons x es ih =>
+    intro h ci off fb hmem
+    cases x with
+    | cie i o b =>
+      rcases List.mem_cons.mp hmem with heq | hm
+      · cases heq
+      · exact ih h ci off fb hm
+    | fde ci' off' fb' =>
+      obtain ⟨hx, hrest⟩ := h
+      rcases List.mem_cons.mp hmem with heq | hm
+      · cases heq; exact hx
+      · exact ih hrest ci off fb hm
+
 end Gimli.WCfi
